@@ -161,6 +161,11 @@ fn c14_structured(leg: &mut Leg, orig: &rn::Msg, mode: rn::Compress) {
     }
 }
 
+thread_local! {
+    /// confusable sibling pairs placed by gen_structured on this thread, by kind (drained into the leg's counts)
+    pub static SIBLING_KINDS: std::cell::RefCell<std::collections::BTreeMap<String, u64>> = const { std::cell::RefCell::new(std::collections::BTreeMap::new()) };
+}
+
 pub fn gen_structured(r: &mut Rng, big: bool) -> rn::Msg {
     let names = rn::gen_name_pool(r, 6, false);
     let qn = r.pick(&names).clone();
@@ -223,6 +228,50 @@ pub fn gen_structured(r: &mut Rng, big: bool) -> rn::Msg {
             _ => m.additional.splice(0..0, stairs),
         };
     }
+    if r.chance(1, 5) {
+        // confusable siblings: different labels below one suffix that a dictionary keyed on anything weaker than the
+        // label's octets (a 32-bit fingerprint, a prefix, ...) takes for one another
+        let suffix: rn::Name = if r.bool() { m.questions[0].name.clone() } else { r.pick(&names).clone() };
+        let room = 255usize.saturating_sub(suffix.iter().map(|x| x.len() + 1).sum::<usize>() + 1);
+        let mut sib = Vec::new();
+        for _ in 0..r.range(1, 4) {
+            let (how, (x, y)) = crate::refcodec::weakhash::confusable_pair(r);
+            if x.len().max(y.len()) + 1 > room {
+                continue;
+            }
+            SIBLING_KINDS.with(|k| *k.borrow_mut().entry(how).or_insert(0) += 1);
+            let mut nx = suffix.clone();
+            nx.insert(0, x);
+            let mut ny = suffix.clone();
+            ny.insert(0, y);
+            let mut rd = Vec::new();
+            rn::push_name(&mut rd, &ny);
+            match r.below(3) {
+                0 => {
+                    // x.S CNAME y.S, then y.S A
+                    sib.push(rn::Rr { name: nx, rtype: 5, class: 1, ttl: 300, rdata: rd });
+                    sib.push(rn::Rr { name: ny, rtype: 1, class: 1, ttl: 300, rdata: r.bytes(4) });
+                }
+                1 => {
+                    sib.push(rn::Rr { name: nx, rtype: 1, class: 1, ttl: 300, rdata: r.bytes(4) });
+                    sib.push(rn::Rr { name: ny, rtype: 28, class: 1, ttl: 300, rdata: r.bytes(16) });
+                }
+                _ => {
+                    // both inside record data (SOA: mname x.S, rname y.S)
+                    let mut soa = Vec::new();
+                    rn::push_name(&mut soa, &nx);
+                    rn::push_name(&mut soa, &ny);
+                    soa.extend(r.bytes(20));
+                    sib.push(rn::Rr { name: suffix.clone(), rtype: 6, class: 1, ttl: 300, rdata: soa });
+                }
+            }
+        }
+        match r.below(3) {
+            0 => m.answer.extend(sib),
+            1 => drop(m.authority.splice(0..0, sib)),
+            _ => drop(m.additional.splice(0..0, sib)),
+        };
+    }
     m
 }
 
@@ -230,7 +279,7 @@ pub fn run_c14(seed: u64, thorough: bool, shards: u64) -> Leg {
     let mut total = Leg::new(
         "c14-roundtrip-inproc",
         "C14",
-        "structured messages (0..2000 records, names sharing suffixes at every depth incl. staircases of up to 126 names each extending the previous one, every record layout with embedded names, opaque rdata up to 60000 octets, three compression styles, sizes up to 65535 octets) through reference-encode -> erbium decode -> erbium encode -> erbium decode and the reference decoder with pointer validation; plus systematic, havoc and grammar-hostile byte inputs accepted by the decoder; distinct = (kind, encoded-size class, record-count class, compression style) or (kind, section shape)",
+        "structured messages (0..2000 records, names sharing suffixes at every depth incl. staircases of up to 126 names each extending the previous one and sibling labels that collide under ten common 32-bit string hashes or differ in one bit/by a prefix, every record layout with embedded names, opaque rdata up to 60000 octets, three compression styles, sizes up to 65535 octets) through reference-encode -> erbium decode -> erbium encode -> erbium decode and the reference decoder with pointer validation; plus systematic, havoc and grammar-hostile byte inputs accepted by the decoder; distinct = (kind, encoded-size class, record-count class, compression style) or (kind, section shape)",
     );
     total.floor = 3_000;
     let n_struct: u64 = if thorough { 1_500_000 } else { 12_000 };
@@ -253,6 +302,9 @@ pub fn run_c14(seed: u64, thorough: bool, shards: u64) -> Leg {
                     leg.sample(json!({"kind": "structured", "question": rn::name_to_string(&m.questions[0].name), "answer": m.answer.len(), "authority": m.authority.len(), "additional": m.additional.len(), "first_records": m.answer.iter().take(3).map(rn::rr_brief).collect::<Vec<_>>()}));
                 }
                 c14_structured(&mut leg, &m, mode);
+            }
+            for (how, n) in SIBLING_KINDS.with(|k| std::mem::take(&mut *k.borrow_mut())) {
+                leg.count(&format!("confusable_sibling_pairs_{}", how), n);
             }
             let seeds = corpus::dns_seeds();
             let mut gidx = 0u64;
